@@ -227,6 +227,11 @@ func saveFetchedRefs(
 	cm := bytesSliceToMap(fetchedCommits)
 	for r, sum := range maybeSaveTags {
 		if _, ok := cm[string(sum)]; ok || objects.CommitExist(db, sum) {
+			// a tag is only followed onto a commit that is here in full: with --depth the
+			// commit may have arrived without its table
+			if com, err := objects.GetCommit(db, sum); err != nil || !objects.TableExist(db, com.Table) {
+				continue
+			}
 			_, err := ref.GetRef(rs, r)
 			if err != nil {
 				ref, err := conf.NewRefspec(r, r, false, false)
